@@ -234,7 +234,15 @@ def rule_routing(ctx: Ctx) -> None:
     sub = ctx.func(f"{BWS}.subscribe_to_channels")
     ups = [c for c in A.func_calls(sub) if (A.call_name(c) or "") == "self._stream_to_channel.update"]
     sends = [c for c in A.func_calls(sub) if (A.call_name(c) or "").endswith(".send_str")]
-    ctx.floor("C18.4", "stream table updates", len(ups), 1)
+    # the routing table accumulates: subscribe_to_channels is called with *some* aliases (a late registration, one expired listen key), so
+    # replacing the table by the current batch drops the routes of every other live channel
+    rebinds = [s_ for s_ in A.stores(sub) if A.dotted(s_.target) == "self._stream_to_channel" and isinstance(s_.node, (ast.Assign, ast.AnnAssign))]
+    ctx.check(bool(ups) and not rebinds, "C18.4", "the stream routing table is added to, never replaced by the current batch", sub,
+              rebinds[0].stmt if rebinds else (ups[0] if ups else sub.node), "self._stream_to_channel.update(...)",
+              "the stream -> channel table is rebuilt from the channels of this call only: channels subscribed earlier keep receiving messages that can no "
+              "longer be routed, so they silently stop producing events until the next reconnection", key_text="routing table accumulates")
+    if not ups:
+        return
     ctx.floor("C18.4", "SUBSCRIBE sends", len(sends), 1)
     up_src = ast.unparse(ups[0])
     send_src = ast.unparse(sends[0])
